@@ -3,13 +3,14 @@
    request paths derived from the registered and unregistered names by mutation, evaluates the
    Contract's Dispatch on each point, and exports the table as stimuli for the real Routes.       *)
 EXTENDS Routing, Json
+CONSTANTS SvcU, MethU      \* the services and methods the table is built from (MC_Routing.cfg: the five short-named services; MC_Routing_long.cfg: the long-named one and a.S)
 Unknown == <<88>>
 Flip(b) == [i \in 1..Len(b) |-> IF IsUpper(b[i]) THEN b[i] + 32 ELSE IF b[i] >= 97 /\ b[i] <= 122 THEN b[i] - 32 ELSE b[i]]
 PctDot(b) == FlattenSeq([i \in 1..Len(b) |-> IF b[i] = 46 THEN <<37, 50, 69>> ELSE <<b[i]>>])
 \* the same name with its first byte percent-encoded (legal in an HTTP/2 :path, equivalent under RFC 3986 - and still not "exactly /S/M")
 HexDigit(d) == IF d < 10 THEN 48 + d ELSE 55 + d
 PctFirst(b) == IF b = <<>> THEN b ELSE <<37, HexDigit(b[1] \div 16), HexDigit(b[1] % 16)>> \o Tail(b)
-MethAll == { MethBytes[m] : m \in Methods } \cup {Unknown}
+MethAll == { MethBytes[m] : m \in MethU } \cup {Unknown}
 PathsFor(s, me) ==
                  { Slash \o s \o Slash \o me, Slash \o s \o Slash \o me \o Slash, Slash \o Slash \o s \o Slash \o me,
                    Slash \o s \o Slash \o Slash \o me, Slash \o s \o Slash \o me \o Slash \o <<120>>, Slash \o s \o me,
@@ -18,13 +19,13 @@ PathsFor(s, me) ==
                    Slash \o <<120, 46>> \o s \o Slash \o me, Slash \o s \o <<46, 120>> \o Slash \o me, Slash \o s \o Slash \o me \o <<50>>,
                    Slash \o s \o Slash \o <<32>> \o me,
                    Slash \o s \o Slash \o PctFirst(me), Slash \o PctFirst(s) \o Slash \o me, Slash \o s \o Slash \o me \o <<37, 51, 70, 120>> }
-Paths == UNION { PathsFor(SvcBytes[sv], me) : sv \in AllSvcs, me \in MethAll }
-         \cup UNION { { Slash \o SvcBytes[sv], Slash \o SvcBytes[sv] \o Slash } : sv \in AllSvcs }
+Paths == UNION { PathsFor(SvcBytes[sv], me) : sv \in SvcU, me \in MethAll }
+         \cup UNION { { Slash \o SvcBytes[sv], Slash \o SvcBytes[sv] \o Slash } : sv \in SvcU }
          \cup { Slash, <<42>>, Slash \o Slash, Slash \o <<88>> \o Slash \o <<77>> }
 \* registration orders: ascending, descending and one rotation of every subset
 Orders(S) == LET a == SetToSeq(S) IN {a, Reverse(a)} \cup (IF Len(a) > 2 THEN {Tail(a) \o <<Head(a)>>} ELSE {})
 VARIABLE pt
-Init == \E S \in SUBSET AllSvcs : \E o \in Orders(S) : \E p \in Paths : pt = [reg |-> o, path |-> p]
+Init == \E S \in SUBSET SvcU : \E o \in Orders(S) : \E p \in Paths : pt = [reg |-> o, path |-> p]
 Next == UNCHANGED pt
 Spec == Init /\ [][Next]_pt
 RegSet == { pt.reg[i] : i \in 1..Len(pt.reg) }
